@@ -64,7 +64,7 @@ CODES = {
     'PlanarCode': 'qecsim.models.planar', 'ToricCode': 'qecsim.models.toric',
     'RotatedPlanarCode': 'qecsim.models.rotatedplanar', 'RotatedToricCode': 'qecsim.models.rotatedtoric',
     'Color666Code': 'qecsim.models.color', 'FiveQubitCode': 'qecsim.models.basic',
-    'SteaneCode': 'qecsim.models.basic',
+    'SteaneCode': 'qecsim.models.basic', 'BasicCode': 'qecsim.models.basic',
 }
 DECODERS = {
     'PlanarMWPMDecoder': 'qecsim.models.planar', 'PlanarCMWPMDecoder': 'qecsim.models.planar',
@@ -190,7 +190,13 @@ def _cls(table, name):
     return subclass(cls, name.split('~')[1]) if '~' in name else cls
 
 
+def _tuples(x):
+    return tuple(_tuples(y) for y in x) if isinstance(x, (list, tuple)) else x
+
+
 def _mk(table, name, args=(), kwargs=None):
+    if base_name(name) == 'BasicCode':      # user-defined codes hash their constructor arguments: tuples, not JSON lists
+        args = _tuples(args)
     return _cls(table, name)(*args, **(kwargs or {}))
 
 
@@ -216,6 +222,8 @@ class Pool:
         k = key([name, args])
         klass = _cls(table, name)  # resolved BEFORE a temporary is released: nothing else is allocated in between
         a, kw = (tuple(args) if isinstance(args, list) else ()), (args if isinstance(args, dict) else {})
+        if base_name(name) == 'BasicCode':      # user-defined codes hash their constructor arguments: tuples, not JSON lists
+            a = _tuples(a)
         make = lambda: klass(*a, **kw)  # noqa: E731
         if self.shared and life == 'temp':
             # a temporary: constructed for this call, released before the next temporary of its role is constructed (at
